@@ -5,6 +5,7 @@ import (
 	"fmt"
 	"math/rand"
 	"strings"
+	"time"
 
 	"verifharness/drv"
 	"verifharness/evid"
@@ -47,6 +48,13 @@ func (g *Graph) RandomPath(rng *rand.Rand, maxLen int) []*Edge {
 // "segmented": cut at random points) and compares the complete reply stream
 // and callback sequence with what the specification says for the path.
 func Pipelined(g *Graph, srv *drv.Server, path []*Edge, mode string, rng *rand.Rand) (divs []evid.Div, transcript map[string]interface{}, err error) {
+	return RunPath(g, srv, path, nil, mode, rng)
+}
+
+// RunPath sends either the rendering of path or, when override is non-nil,
+// exactly override followed by a half-close, and compares the whole reply
+// stream and callback sequence with the labels of path.
+func RunPath(g *Graph, srv *drv.Server, path []*Edge, override []byte, mode string, rng *rand.Rand) (divs []evid.Div, transcript map[string]interface{}, err error) {
 	c, err := srv.Dial()
 	if err != nil {
 		return nil, nil, err
@@ -95,6 +103,10 @@ func Pipelined(g *Graph, srv *drv.Server, path []*Edge, mode string, rng *rand.R
 				expLoop = append(expLoop, cb.String())
 			}
 		}
+	}
+	if override != nil {
+		wireOut = override
+		eof = true
 	}
 	be.Lock()
 	be.NewSessionErrs, be.MailErrs, be.RcptErrs, be.DataPlans, be.AuthPlans, be.PanicIn = nil, nil, nil, nil, nil, ""
@@ -145,6 +157,24 @@ func Pipelined(g *Graph, srv *drv.Server, path []*Edge, mode string, rng *rand.R
 	}
 	out, _ := c.Output()
 	calls := be.Since(mark)
+	// a delivery goroutine spawned for an empty chunk may not have run yet
+	wantData := 0
+	for _, v := range expData {
+		wantData += v
+	}
+	for dl := time.Now().Add(time.Second); ; {
+		have := 0
+		for _, cl := range calls {
+			if cl.Name == "Data" || cl.Name == "LMTPData" {
+				have++
+			}
+		}
+		if have >= wantData || time.Now().After(dl) {
+			break
+		}
+		time.Sleep(100 * time.Microsecond)
+		calls = be.Since(mark)
+	}
 	rs, rest, syn := wire.ParseAll(out)
 	var gotReplies []string
 	for _, r := range rs {
